@@ -1012,6 +1012,22 @@ func (e *SpecEnv) call(x *ECall) TV {
 			}
 		}
 		return specTV(fmt.Sprintf("(select %s %s)", m.T, k.T), "Bool")
+	case "mapdom", "mapvals":
+		// mapdom(m) / mapvals(m): the key set (Array K Bool) and the key->value array of Go map m in the current
+		// state, as values (a ghost variable can keep them as a snapshot of the map's contents)
+		m := e.eval(x.Args[0])
+		if m.Ty != nil {
+			if mt, ok := c.under(m.Ty).(*types.Map); ok {
+				dn, vn, _, ds, vs, _ := c.mapComps(mt)
+				if x.Fun == "mapdom" {
+					_, rs := arraySorts(ds)
+					return specTV(fmt.Sprintf("(select %s %s)", compIn(c, e.Heap, dn, ds), m.T), rs)
+				}
+				_, rs := arraySorts(vs)
+				return specTV(fmt.Sprintf("(select %s %s)", compIn(c, e.Heap, vn, vs), m.T), rs)
+			}
+		}
+		efail("%s needs a Go map", x.Fun)
 	case "pre":
 		// pre(g): the value of ghost variable g in the pre-state (at function entry; before the call at a call site)
 		id, ok := x.Args[0].(*EIdent)
